@@ -397,7 +397,9 @@ class Program:
         r = rng.random()
         self.n = rng.randint(1, 6) if r < 0.5 else rng.randint(5, 14) if r < 0.9 else rng.randint(15, 40)
         if tier == "thorough" and rng.random() < 0.2:
-            self.n = rng.randint(60, 150)  # thorough tier: some very long histories
+            self.n = rng.randint(60, 300)  # thorough tier: some very long histories
+        elif tier != "thorough" and rng.random() < 0.008:
+            self.n = rng.randint(110, 280)  # quick tier: the occasional very long script (more than 100 / 256 steps)
 
     def source(self, i, sess):
         if i >= self.n:
